@@ -90,6 +90,14 @@ def repr_def(rng, did, n=None, repr_=None, anchored=None, kinds="mixed", generic
                 v["discx"] = expr_form(rng, val, R) if repr_ != "none" else rng.choice([str(val), hex(val)])
         vs.append(v)
     E = enum(did, vs, repr_=repr_, generics=generics)
+    # the same integer repr written together with / next to an alignment hint
+    if repr_ != "none" and n > 0 and not for_disc:
+        mode = rng.choice(["plain", "plain", "plain", "align_combined", "align_combined_last", "align_split_first", "align_split_last"])
+        E["reprs"] = {"plain": [repr_], "align_combined": ["align(16), %s" % repr_], "align_combined_last": ["%s, align(16)" % repr_],
+                      "align_split_first": ["align(16)", repr_], "align_split_last": [repr_, "align(16)"]}[mode]
+        E["repr_mode"] = mode
+    else:
+        E["repr_mode"] = "plain"
     E["anchor_rs"] = anchor_rs
     E["absvals"] = [val for val, _ in vals[:n]]
     has_data = any(v["kind"] != "unit" for v in vs)
@@ -166,3 +174,133 @@ def in_domain(cands, tag):
             out.append(E)
     core.log("[%s] %d candidates, %d with distinct in-range discriminants" % (tag, len(cands), len(out)))
     return out
+
+
+# --------------------------------------------------------------------------- EnumDiscriminants (C09)
+DGEN = {"none": ("", "", ""), "ty": ("<T: Default + Clone + PartialEq + core::fmt::Debug>", "<u16>", ""),
+        "lt": ("<'a>", "<'static>", ""), "ltty": ("<'a, T>", "<'static, u16>", " where T: Default + Clone + PartialEq + core::fmt::Debug + 'a"),
+        "tywhere": ("<T>", "<u16>", " where T: Default + Clone + PartialEq + core::fmt::Debug")}
+
+
+def disc_def(rng, did):
+    repr_ = rng.choice(["none", "none", "u8", "i8", "u16", "i32", "u64", "isize", "C"])
+    base_repr = repr_ if repr_ != "C" else "none"
+    E = repr_def(rng, did, n=rng.choice([1, 2, 3, 4, 5]), repr_=base_repr, anchored=False, kinds="mixed", generics="none", for_disc=True)
+    # data-carrying variants with explicit discriminants need a primitive repr (rustc); repr(C)/none: keep implicit
+    E["dgen"] = rng.choice(["none", "none", "ty", "lt", "ltty", "tywhere"])
+    for v in E["variants"]:
+        for f in v["fields"]:
+            if E["dgen"] in ("ty", "ltty", "tywhere") and rng.random() < 0.4:
+                f["ty"] = "T"
+            elif E["dgen"] in ("lt", "ltty") and rng.random() < 0.4:
+                f["ty"] = "str"
+    # every generic parameter must be used
+    need = {"none": [], "ty": ["T"], "tywhere": ["T"], "lt": ["str"], "ltty": ["T", "str"]}[E["dgen"]]
+    have = {f["ty"] for v in E["variants"] for f in v["fields"]}
+    for t in need:
+        if t not in have:
+            E["variants"].append(variant({"T": "CarrierT", "str": "CarrierL"}[t], "tuple", [field(t)]))
+    mode = rng.choice(["plain", "plain", "align_combined", "align_split_first", "align_split_last"]) if repr_ not in ("none",) else rng.choice(["plain", "align_only"])
+    if repr_ == "C":
+        E["reprs"] = ["C"]
+    elif repr_ == "none":
+        E["reprs"] = [] if mode == "plain" else ["align(8)"]
+    else:
+        E["reprs"] = {"plain": [repr_], "align_combined": ["align(16), %s" % repr_], "align_split_first": ["align(16)", repr_],
+                      "align_split_last": [repr_, "align(16)"], "C": ["C, %s" % repr_]}[mode]
+    E["repr_mode"] = mode
+    E["dname"] = rng.choice(["", "", "Kind%d" % did])
+    E["dvis"] = rng.choice(["", "", "pub", "pub(crate)", "pub(super)"])
+    E["dder"] = rng.random() < 0.7
+    E["dstyle"] = rng.choice(["none", "snake_case", "SCREAMING_SNAKE_CASE", "kebab-case", "camelCase"]) if E["dder"] else "none"
+    E["dsplit"] = rng.randrange(2)
+    return E
+
+
+def disc_module(E):
+    n = E["name"]
+    dn = E["dname"] or (n + "Discriminants")
+    decl, inst, where = DGEN[E["dgen"]]
+    R = rtype(E)
+    has_int_repr = E["repr"] != "none"
+    cast_ty = R if has_int_repr else "isize"
+    items = []
+    if E["dname"]:
+        items.append("name(%s)" % dn)
+    if E["dvis"]:
+        items.append("vis(%s)" % E["dvis"])
+    if E["dder"]:
+        items.append("derive(strum::EnumIter, strum::EnumString, strum::Display, strum::EnumCount, Hash)")
+        if E["dstyle"] != "none":
+            items.append('strum(serialize_all = "%s")' % E["dstyle"])
+    attrs = []
+    if items:
+        attrs = ["#[strum_discriminants(%s)]" % i for i in items] if E["dsplit"] else ["#[strum_discriminants(%s)]" % ", ".join(items)]
+    src = SG.HEADER + base_const(E)
+    src += "pub mod inner {\n    use vsupport::*;\n    use super::BASE;\n"
+    lines = ["#[derive(Debug, Clone, PartialEq, strum::EnumDiscriminants)]"] + ["#[repr(%s)]" % r for r in E["reprs"]] + attrs
+    lines.append("pub enum %s%s%s {" % (n, decl, where))
+    for v in E["variants"]:
+        lines += D.print_variant(v, 0, with_strum=False, indent="    ")
+    lines.append("}")
+    # reference enum for the layout clause: same repr lines, same discriminants, no fields
+    lines += ["#[repr(%s)]" % r for r in E["reprs"]]
+    lines.append("pub enum Ref%d {" % E["id"])
+    for v in E["variants"]:
+        lines.append("    %s%s," % (uncp(v["id"]), (" = " + (v.get("discx") or str(v["disc"][0]))) if v["disc"] else ""))
+    lines.append("}")
+    src += "\n".join("    " + l for l in lines) + "\n}\n"
+    src += "use inner::*;\n"
+    src += "fn d_index(d: %s) -> usize { match d { %s } }\n" % (dn, " ".join("%s::%s => %d," % (dn, uncp(v["id"]), i + 1) for i, v in enumerate(E["variants"])))
+    src += "const ANCHOR: i128 = 0;\n"
+    has_into = E["dvis"] in ("", "pub")
+    body = []
+    did = E["id"]
+    Einst = {"name": n, "generics": "none"}
+    for i, v in enumerate(E["variants"]):
+        k = i + 1
+        for which in (1, 2):
+            vals = []
+            for f in v["fields"]:
+                if f["ty"] == "T":
+                    vals.append(["0u16", "41u16", "42u16"][which])
+                elif f["ty"] == "str":
+                    vals.append(['""', '"brw"', '"bq"'][which])
+                else:
+                    vals.append(D.TYPES[f["ty"]][1 + which])
+            ident = "%s::%s" % (n, uncp(v["id"]))
+            if v["kind"] == "tuple":
+                ctor = "%s(%s)" % (ident, ", ".join(vals))
+            elif v["kind"] == "named":
+                ctor = "%s { %s }" % (ident, ", ".join("%s: %s" % (f["name"], x) for f, x in zip(v["fields"], vals)))
+            else:
+                ctor = ident
+            blk = ["    {", "        let r = catch(|| {", "            let x: %s%s = %s;" % (n, inst, ctor),
+                   "            let from_ref = d_index(%s::from(&x));" % dn,
+                   "            let as_int = (%s::from(&x) as %s) as i128 - ANCHOR;" % (dn, cast_ty)]
+            if has_into:
+                blk.append("            let into = d_index(strum::IntoDiscriminant::discriminant(&x));")
+            else:
+                blk.append("            let into = 0usize;")
+            if has_int_repr:
+                blk.append("            let tag = (unsafe { *(&x as *const %s%s as *const %s) }) as i128 - ANCHOR; let has_tag = 1;" % (n, inst, R))
+            else:
+                blk.append("            let tag = 0i128; let has_tag = 0;")
+            blk.append("            let from = d_index(%s::from(x));" % dn)
+            blk.append('            o.line(&format!("{{\\"op\\":\\"disc\\",\\"def\\":%d,\\"i\\":%d,\\"from\\":{},\\"from_ref\\":{},\\"has_into\\":%d,\\"into\\":{},\\"as_int\\":{},\\"has_tag\\":{},\\"tag\\":{}}}", from, from_ref, into, as_int, has_tag, tag));' % (did, k, 1 if has_into else 0))
+            blk += ["        });", SG._ev_panic(did, k), "    }"]
+            body += blk
+            if v["kind"] == "unit":
+                break
+    body.append('    o.line(&format!("{{\\"op\\":\\"dlayout\\",\\"def\\":%d,\\"size\\":{},\\"align\\":{},\\"ref_size\\":{},\\"ref_align\\":{}}}", core::mem::size_of::<%s>(), core::mem::align_of::<%s>(), core::mem::size_of::<Ref%d>(), core::mem::align_of::<Ref%d>()));' % (did, dn, dn, did, did))
+    if E["dder"]:
+        body += ["    {", "        use strum::IntoEnumIterator;",
+                 "        let iter: Vec<String> = %s::iter().map(|d| d_index(d).to_string()).collect();" % dn,
+                 "        let all: Vec<%s> = vec![%s];" % (dn, ", ".join("%s::%s" % (dn, uncp(v["id"])) for v in E["variants"])),
+                 "        let names: Vec<String> = all.iter().map(|d| d.to_string()).collect();",
+                 "        let parsed: Vec<String> = names.iter().map(|s| match s.parse::<%s>() { Ok(d) => d_index(d).to_string(), Err(_) => \"0\".to_string() }).collect();" % dn,
+                 "        let mut hs = std::collections::HashSet::new(); for d in &all { hs.insert(*d); }",
+                 '        o.line(&format!("{{\\"op\\":\\"dderives\\",\\"def\\":%d,\\"iter\\":{},\\"names\\":{},\\"parsed\\":{},\\"count\\":{}}}", jlist(&iter), jstrs(&names), jlist(&parsed), <%s as strum::EnumCount>::COUNT));' % (did, dn),
+                 "    }"]
+    src += IG.RUN + "\n".join(body) + "\n}\n"
+    return src
